@@ -155,6 +155,9 @@ func StartNode(store *raftlog.RaftDiskStorage, nodeId uint64, database string, i
 		Messages:       make(chan *raftpb.Message, config.RaftMsgCacheSize),
 	}
 	n.initIdentity()
+	// Propose ids must differ between two lives of a node: an entry proposed by the previous life can
+	// still be committed and applied after the restart, and must not answer a writer of this life.
+	n.proposeId.Store(uint64(n.startTime.UnixNano()) % maxProposeId)
 	return n
 }
 
